@@ -201,7 +201,7 @@ theorem chain_refines (fc : FC) (a : Abs) (I : FI fc) (r : Ref fc a) (hl : LI fc
 
 theorem RefQ.refEx2_fi : FI refExFC2 :=
   ⟨refEx2_ok.1, refEx2_ok.2, (by show aGet refExFC2.pa.indices NodeRef.zero = none; decide),
-   (fun v hv => by cases hv), (by
+   (by
     intro i n hn
     have key : ∀ i ∈ List.range refExFC2.pa.nodes.length,
         (refExFC2.pa.nodes[i]?).map (·.weight) = some (wsum refExFC2.pa refExFC2.votes refExFC2.balances i) := by
